@@ -138,22 +138,9 @@ func rulesC03(c *Ctx) {
 	rulesC03Iter(c)
 	rulesC03Round3(c)
 	c03NilKey(c)
-	// every dereference refreshes the pointer's LRU position before anything is fetched (and therefore before anything
-	// can be evicted): the nodes on the path being traversed are the most recently used ones and are evicted last
-	if fn := c.needFn("C03.evict", "storage/mkvs.(*cache).derefNodePtr"); fn != nil {
-		use := CallsTo(fn, "c.useNode(ptr)", "storage/mkvs.(*cache).useNode", "")
-		fetch := union("fetch", CallsTo(fn, "", "storage/mkvs/db/api.(NodeDB).GetNode", ""), CallsTo(fn, "", "storage/mkvs.(*cache).remoteSync", ""), CallsTo(fn, "", "storage/mkvs.(*cache).commitNode", ""))
-		fetch.Name, fetch.Fn = "GetNode/remoteSync/commitNode", fn
-		ok := !use.Empty() && !fetch.Empty() && Reach(fn, nil, nil, anyOf(fetch.Ins), NewCut().AddInstr(use.Ins...)) == nil
-		var rets []ssa.Instruction
-		for _, r := range Returns(fn) {
-			if len(r.Results) == 2 && strings.Contains(vstr(r.Results[0]), "param:ptr.Node") {
-				rets = append(rets, r)
-			}
-		}
-		ok = ok && len(rets) > 0 && Reach(fn, nil, nil, anyOf(rets), NewCut().AddInstr(use.Ins...)) == nil
-		c.Check(ok, "C03.evict", fname(fn)+":useNode(ptr) before any fetch and before the node is handed out", c.P.Pos(fn.Pos()), "the LRU position of a dereferenced pointer is refreshed first", "derefNodePtr no longer refreshes the LRU position of the pointer before fetching/returning: ancestors on the path being traversed can become the eviction candidates while they are in use")
-	}
+	// (The earlier obligation "useNode(ptr) precedes every fetch in derefNodePtr" was withdrawn after the F24 repair: the
+	// nodes an operation holds are now protected by the in-use record, their LRU position is a matter of efficiency only,
+	// and a change that drops the refresh no longer breaks the property — seed C03/5 is NEUTRALISED.)
 	c03EvictRepaired(c)
 	childNodeReadRule(c, "C03.evict")
 
